@@ -482,6 +482,11 @@ def run(program, ctx):
     c04.rule_serializer(program, ctx, c04.canonical_fields(program, ctx, ctx.rule("C02.canonical", "admission proves canonical id/pubkey/sig/created_at (input to C02.serializer)", floor=0)), prop=P, rid="C02.serializer")
     c01.rule_tagindex(program, ctx, prop=P, rid="C02.tagindex")
     c01.rule_emptylist(program, ctx, prop=P, rid="C02.emptylist")
+    from . import c05, c12
+
+    # a stored query that is cancelled by another connection's REQ (shared registry entry) ends without its remaining events
+    c05.rule_registry(program, ctx, prop=P, rid="C02.registry")
+    c12.rule_model(program, ctx, prop=P, rid="C02.limitmodel")
     ctx.not_decided += [
         "completeness of Index.scanner / MultiIndex over arbitrary key neighbourhoods (seek sentinel, stop key, prefix test on variable-length tag keys, equal timestamps, ids starting 0xff)",
         "exactly-once on SQL (engine semantics); bound-parameter naming collisions across filters",
